@@ -582,4 +582,69 @@ theorem verifyLoop_exhausted {F} (ops : FieldOps F) (v : Verifier F) :
       · rename_i h1
         exact ⟨0, st, o, by omega, by simp, by simpa using h1⟩
 
+/-! ### every query is looked up and compared separately -/
+
+theorem mapM_some_inv {α β} (g : α → Option β) :
+    ∀ (l : List α) (r : List β), l.mapM g = some r →
+      r.length = l.length ∧ ∀ i (h1 : i < l.length) (h2 : i < r.length), g l[i] = some r[i]
+  | [], r, h => by
+    simp only [List.mapM_nil, Option.pure_def, Option.some.injEq] at h
+    subst h; simp
+  | a :: l, r, h => by
+    simp only [List.mapM_cons, Option.pure_def, Option.bind_eq_bind] at h
+    cases ha : g a with
+    | none => simp [ha] at h
+    | some b =>
+      cases hl : l.mapM g with
+      | none => simp [ha, hl] at h
+      | some r' =>
+        simp only [ha, hl, Option.bind_some, Option.some.injEq] at h
+        subst h
+        obtain ⟨h1, h2⟩ := mapM_some_inv g l r' hl
+        refine ⟨by simp [h1], ?_⟩
+        intro i hi1 hi2
+        cases i with
+        | zero => simpa using ha
+        | succ i => simpa using h2 i (by simpa using hi1) (by simpa using hi2)
+
+theorem listBeq_pointwise {F} (ops : FieldOps F) :
+    ∀ (a b : List F), listBeq ops a b = true →
+      a.length = b.length ∧ ∀ i (h1 : i < a.length) (h2 : i < b.length), ops.beq a[i] b[i] = true
+  | [], [], _ => by simp
+  | [], _ :: _, h => by simp [listBeq] at h
+  | _ :: _, [], h => by simp [listBeq] at h
+  | x :: a, y :: b, h => by
+    simp only [listBeq, Bool.and_eq_true] at h
+    obtain ⟨h1, h2⟩ := listBeq_pointwise ops a b h.2
+    refine ⟨by simp [h1], ?_⟩
+    intro i hi1 hi2
+    cases i with
+    | zero => simpa using h.1
+    | succ i => simpa using h2 i (by simpa using hi1) (by simpa using hi2)
+
+/-- `get_query_values` treats EVERY listed position separately: entry `i` of the result is the
+element at row `position(folded, positions[i] % rowLen)`, column `positions[i] / rowLen` -/
+theorem getQueryValues_some {F} (values : List (List F)) (positions folded : List Nat) (d n : Nat)
+    (qv : List F) (h : getQueryValues values positions folded d n = some qv) :
+    qv.length = positions.length ∧
+    ∀ i (h1 : i < positions.length) (h2 : i < qv.length), ∃ idx row,
+      folded.findIdx? (· == positions[i] % (d / n)) = some idx ∧ values[idx]? = some row ∧
+      row[positions[i] / (d / n)]? = some qv[i] := by
+  unfold getQueryValues at h
+  split at h
+  · cases h
+  · split at h
+    · cases h
+    · obtain ⟨hl, hp⟩ := mapM_some_inv _ positions qv h
+      refine ⟨hl, ?_⟩
+      intro i h1 h2
+      have := hp i h1 h2
+      split at this
+      · cases this
+      · rename_i idx hidx
+        split at this
+        · cases this
+        · rename_i row hrow
+          exact ⟨idx, row, hidx, hrow, this⟩
+
 end Wf.Fri
